@@ -592,6 +592,7 @@ func checkStored(col, ans string, segs [][]row) string {
 type call struct{ f, col string }
 
 type aggQuery struct {
+	aux      []string // auxiliary columns next to a lone selector (op "auxq": spec side only)
 	calls    []call
 	lo, hi   int
 	hint     bool
@@ -616,6 +617,11 @@ func (q aggQuery) opText() string {
 	for _, c := range q.calls {
 		cs = append(cs, c.f+":"+c.col)
 	}
+	head := "agg"
+	if len(q.aux) > 0 {
+		head = "auxq"
+		cs[0] += "/" + strings.Join(q.aux, "/")
+	}
 	hint, dir, fill := "nohint", "asc", q.fill
 	if q.hint {
 		hint = "exact"
@@ -626,7 +632,7 @@ func (q aggQuery) opText() string {
 	if q.interval == 0 {
 		fill = "-"
 	}
-	return fmt.Sprintf("agg %s %d %d %s %s %d %s %s %s", strings.Join(cs, "+"), q.lo, q.hi, hint, q.grp, q.interval, fill, dir, q.filterText())
+	return fmt.Sprintf("%s %s %d %d %s %s %d %s %s %s", head, strings.Join(cs, "+"), q.lo, q.hi, hint, q.grp, q.interval, fill, dir, q.filterText())
 }
 
 func filterSQL(col, op string, k int64) string {
@@ -649,6 +655,7 @@ func (q aggQuery) sql() string {
 	if q.hint {
 		s += "/*+ Exact_Statistic_Query */ "
 	}
+	sel = append(sel, q.aux...)
 	s += strings.Join(sel, ", ") + " from m where " + timeCond(q.lo, q.hi)
 	if q.fcol != "" {
 		s += " and " + filterSQL(q.fcol, q.fop, q.fconst)
@@ -771,6 +778,7 @@ type aggCell struct {
 	null bool
 }
 type aggRow struct {
+	aux    []cell
 	bucket string
 	bt     int
 	vals   []aggCell
@@ -828,7 +836,7 @@ func (h *history) runAgg(q aggQuery, raw map[int][]row, twice bool) (string, map
 		if _, dup := groups[g]; dup {
 			flags += " !group-twice"
 		}
-		if len(s.Columns) != len(q.calls)+1 {
+		if len(s.Columns) != len(q.calls)+1+len(q.aux) {
 			flags += " !columns"
 			continue
 		}
@@ -882,6 +890,17 @@ func (h *history) runAgg(q aggQuery, raw map[int][]row, twice bool) (string, map
 					} else {
 						ar.vals = append(ar.vals, aggCell{strconv.FormatInt(v, 10), false})
 					}
+				}
+			}
+			for ai, col := range q.aux {
+				x := vals[len(q.calls)+1+ai]
+				if x == nil {
+					ar.aux = append(ar.aux, cell{})
+				} else if v, ok := valueToCode(col, x); ok {
+					ar.aux = append(ar.aux, cell{true, v})
+				} else {
+					flags += " !aux-value"
+					ar.aux = append(ar.aux, cell{})
 				}
 			}
 			groups[g] = append(groups[g], ar)
@@ -1234,6 +1253,52 @@ func (h *history) checkSpec(q aggQuery, got map[string][]aggRow, raw map[int][]r
 			}
 		}
 	}
+	if len(q.aux) > 0 {
+		// the auxiliary columns must be those of a row of the group that holds the selected point
+		cl := q.calls[0]
+		for g, rows := range got {
+			for _, r := range rows {
+				if r.at == "" || r.at == "@~" || len(r.vals) == 0 || r.vals[0].null {
+					continue
+				}
+				t, _ := strconv.Atoi(r.at[1:])
+				ok, n := false, 0
+				var cands []string
+				for s, rs := range raw {
+					if groupOf(q.grp, s) != g {
+						continue
+					}
+					for _, rw := range rs {
+						c := rw.cs[colIdx(cl.col)]
+						if rw.t != t || !c.ok || strconv.FormatInt(c.v, 10) != r.vals[0].text {
+							continue
+						}
+						n++
+						match := true
+						var ct []string
+						for ai, col := range q.aux {
+							a := rw.cs[colIdx(col)]
+							ct = append(ct, a.String())
+							if a != r.aux[ai] {
+								match = false
+							}
+						}
+						cands = append(cands, strings.Join(ct, ","))
+						if match {
+							ok = true
+						}
+					}
+				}
+				if n > 0 && !ok {
+					var at []string
+					for _, a := range r.aux {
+						at = append(at, a.String())
+					}
+					return fmt.Sprintf("group %s: %s(%s) at time %d carries auxiliary values %s, the row(s) there have %v", g, cl.f, cl.col, t, strings.Join(at, ","), cands)
+				}
+			}
+		}
+	}
 	for k, exp := range pts {
 		if seen[k] {
 			continue
@@ -1369,6 +1434,21 @@ func (h *history) genQuery(bs []int) aggQuery {
 		}
 	}
 	q.asc = !r.Chance(30)
+	if !mix && r.Chance(5) {
+		// a lone selector with auxiliary columns (checked against the rows only)
+		f := []string{"min", "max", "first", "last"}[r.Intn(4)]
+		col := []string{"fi", "ff"}[r.Intn(2)]
+		q.calls = []call{{f, col}}
+		q.interval = 0
+		for _, a := range cols {
+			if a != col && r.Chance(50) {
+				q.aux = append(q.aux, a)
+			}
+		}
+		if len(q.aux) == 0 {
+			q.aux = []string{"fs"}
+		}
+	}
 	if mix {
 		q.hint, q.interval = false, 0
 		q.grp = []string{"-", "zone", "zone", "host"}[r.Intn(4)]
@@ -1441,7 +1521,12 @@ func (h *history) checkpoint(nq int) {
 			}
 		}
 		ans, got := h.runAgg(q, raw, keyTwiceIn(lay, q.lo, q.hi))
-		line := c.Emit(q.opText(), ans)
+		emitted := ans
+		if len(q.aux) > 0 && !strings.HasPrefix(ans, "err") {
+			emitted = "ok" // not modelled: the answer is compared with the rows only
+			c.Count("query:selector-with-aux-columns")
+		}
+		line := c.Emit(q.opText(), emitted)
 		if c.Arg("debug", "") != "" {
 			fmt.Fprintf(os.Stderr, "C09DBG %d %s\n    -> %s\n", line, q.sql(), ans)
 		}
@@ -1559,7 +1644,7 @@ func (h *history) writeReplay(line int, q aggQuery) {
 
 func parseAgg(f []string) (q aggQuery, err error) {
 	// agg calls lo hi hint grp interval fill dir filter
-	if len(f) != 10 || f[0] != "agg" {
+	if len(f) != 10 || (f[0] != "agg" && f[0] != "auxq") {
 		return q, fmt.Errorf("bad agg op")
 	}
 	for _, c := range strings.Split(f[1], "+") {
@@ -1567,7 +1652,9 @@ func parseAgg(f []string) (q aggQuery, err error) {
 		if len(p) != 2 {
 			return q, fmt.Errorf("bad call")
 		}
-		q.calls = append(q.calls, call{p[0], p[1]})
+		cols := strings.Split(p[1], "/")
+		q.calls = append(q.calls, call{p[0], cols[0]})
+		q.aux = append(q.aux, cols[1:]...)
 	}
 	q.lo, _ = strconv.Atoi(f[2])
 	q.hi, _ = strconv.Atoi(f[3])
@@ -1699,7 +1786,11 @@ func runReplay(c *hx.Ctx, path string) error {
 				}
 			}
 			ans, got := h.runAgg(q, raw, keyTwiceIn(lay, q.lo, q.hi))
-			line := c.Emit(q.opText(), ans)
+			emitted := ans
+			if len(q.aux) > 0 && !strings.HasPrefix(ans, "err") {
+				emitted = "ok"
+			}
+			line := c.Emit(q.opText(), emitted)
 			c.Case(q.opText(), true)
 			fmt.Fprintf(os.Stderr, "C09 replay: %s\n    -> %s\n", q.sql(), ans)
 			if got == nil || raw == nil {
@@ -1729,6 +1820,9 @@ func runReplay(c *hx.Ctx, path string) error {
 // classify names the evaluation path and the first call of a failing query: a stable class for
 // known_findings.jsonl (no class is listed there for the unchanged tree).
 func classify(q aggQuery) string {
+	if len(q.aux) > 0 {
+		return "selector-with-aux-columns"
+	}
 	path := "rows"
 	switch {
 	case q.eligible():
